@@ -91,8 +91,10 @@ package bloom
 //@   ensures held(bf.mtx) && bf.msgFilterLoad == old(bf.msgFilterLoad)
 //@   ensures bf.msgFilterLoad != nil ==> len(bf.msgFilterLoad.Filter) == old(len(bf.msgFilterLoad.Filter)) && bf.msgFilterLoad.HashFuncs == old(bf.msgFilterLoad.HashFuncs) && bf.msgFilterLoad.Tweak == old(bf.msgFilterLoad.Tweak)
 //@   ensures bf.msgFilterLoad != nil ==> forall j :: 0 <= j && j < len(bf.msgFilterLoad.Filter) ==> (bf.msgFilterLoad.Filter[j] & old(bf.msgFilterLoad.Filter[j])) == old(bf.msgFilterLoad.Filter[j])
+//@   ensures $calls_add == 1 && $calls_PutUint32 == 1
 //@   modifies bf.msgFilterLoad.Filter[*]
 //@   opaque bloom.bitidx, bloom.mask
+//@   assert after add#1: $arg0 == bf && len($arg1) == 36
 //@   assert after PutUint32#1: (forall k :: 0 <= k && k < 32 ==> buf[k] == outpoint.Hash[k]) && buf[32] == u8(outpoint.Index) && buf[33] == u8(outpoint.Index >> 8) && buf[34] == u8(outpoint.Index >> 16) && buf[35] == u8(outpoint.Index >> 24)
 
 //@ func bloom.(*Filter).matchesOutPoint
